@@ -96,6 +96,11 @@ Definition done_final2 (a b : snap) : bool :=
               | Some x, Some y => x =? y | _, _ => false end))
           (sn_inst a).
 
+(* ... and over the whole history the constructor ran at most once per token: no message, however
+   late, makes a second instance for a token (whatever Shutdown reported when the first finished) *)
+Definition created_once (n : snap) : bool :=
+  forallb (fun '(_, x) => x <=? 1) (sn_created n).
+
 Fixpoint pairs_ok (f : snap -> snap -> bool) (prev : option snap) (l : list (option snap)) : bool :=
   match l with
   | [] => true
@@ -201,7 +206,8 @@ Definition stale_ok (snaps : list (option snap)) (j : nat) : bool :=
 
 Definition check (c : case) : list nat :=
   clause 1 (forallb (fun o => match o with Some n => snap_tree_while_used n | None => true end) (snaps c)) ++
-  clause 2 (pairs_ok done_final2 None (snaps c)) ++
+  clause 2 (pairs_ok done_final2 None (snaps c) &&
+            forallb (fun o => match o with Some n => created_once n | None => true end) (snaps c)) ++
   clause 3 (grace_answers None [] (actions c) (snaps c) (answers_obs c)) ++
   clause 4 (negb (drained c) || match last_snap (snaps c) None with Some n => released n | None => true end) ++
   clause 5 (others_unaffected None (actions c) (snaps c)) ++
